@@ -351,7 +351,13 @@ func (bp *boundsProver) accessOb(rule string, fn *ssa.Function, ins ssa.Instruct
 				return
 			}
 		}
-		report("index", false, "array value indexed by a non-constant")
+		// strings are indexed with Index in current go/ssa
+		fs := factsAt(ins)
+		if ok, why := proveLess(describe(x.Index), lenOf(x.X), fs); ok {
+			report("index", true, why)
+			return
+		}
+		report("index", false, fmt.Sprintf("no dominating guard establishes %s < %s", describe(x.Index), lenOf(x.X)))
 	case *ssa.Lookup:
 		if _, isMap := x.X.Type().Underlying().(*types.Map); isMap {
 			return
